@@ -325,7 +325,14 @@ def run(rep, tier, seed):
                     "(seq (i 1) absent absent (ch 1 null) (s 61))"),
                    ("(seq (r int) (o (choice (r (tag i c 0 int)) (r (tag i c 1 int)))) (o (choice (r (tag i c 2 int)) (r (tag i c 3 (str 4))))) (o (choice (r bool) (r null))) (r (str 12)))",
                     "(seq (i 1) absent (ch 1 (s 6162)) absent (s 61))"),
-                   ("(set (r int) (o (choice (r (tag i c 0 int)) (r (tag i c 1 int)))) (o (choice (r (tag i c 2 int)) (r bool))))", "(seq (i 1) absent (ch 1 (b 1)))")]:
+                   ("(set (r int) (o (choice (r (tag i c 0 int)) (r (tag i c 1 int)))) (o (choice (r (tag i c 2 int)) (r bool))))", "(seq (i 1) absent (ch 1 (b 1)))"),
+                   # an untagged CHOICE whose chosen alternative is a TAGGED CHOICE, next to a member carrying the inner tag
+                   ("(seq (o (choice (r (tag e c 1 (choice (r int) (r bool)))) (r (str 4)))) (o int))", "(seq (ch 0 (ch 0 (i 5))) absent)"),
+                   ("(seq (o (choice (r (tag e c 1 (choice (r int) (r bool)))) (r (str 4)))) (o int))", "(seq (ch 0 (ch 1 (b 1))) (i 9))"),
+                   ("(set (r (choice (r (tag e c 1 (choice (r int) (r bool)))) (r (str 4)))) (o int) (o bool))", "(seq (ch 0 (ch 0 (i 5))) absent absent)"),
+                   ("(set (r (choice (r (tag e c 1 (choice (r int) (r bool)))) (r (str 4)))) (o int) (o bool))", "(seq (ch 0 (ch 1 (b 0))) (i 3) absent)"),
+                   ("(choice (r (choice (r (tag e c 1 (choice (r int) (r bool)))) (r (str 4)))) (r int) (r bool))", "(ch 0 (ch 0 (ch 0 (i 5))))"),
+                   ("(seqof (choice (r (choice (r (tag e a 2 (choice (r null) (r (str 12))))) (r oid))) (r null)))", "(of (ch 0 (ch 0 (ch 0 null))) (ch 1 null))")]:
         c = engine.Case(sexp_types.ty_of_sexp(gen.parse_sexps(ts)[0]), gen.val_of_sexp(gen.parse_sexps(vs)[0]))
         for mode in (('ber', True, 0), ('ber', False, 0), ('der', True, 0)):
             ie = codec.impl_encode(mode[0], c.t, c.v, mode[1], mode[2], obj=c.fresh_obj())
